@@ -959,4 +959,64 @@ mutual
         cbfOKKids lang f pid es rest (si + 1)
 end
 
+/-! ### Runtime side of the EMPTY-range searches (`EmptyRange.lean`): `ts_node_descendant_for_byte_range(self, x, x)` -/
+
+/-- A node the scan of an EMPTY range at byte `x` does not pass over: it ends after `x`, or it is a zero-width node
+sitting at `x` (`isEmpty ? end < x : end ≤ x` is the C test for passing over). -/
+def selE (x : Nat) (r : NodeRef) : Bool := decide (r.endByte > x) || (r.startByte == r.endByte && r.endByte == x)
+
+/-- The plain raw search for the empty range `[x, x]`: first raw child the scan does not pass over; stop if it
+starts after `x`, else go on inside it; answer the last node on the chain that counts for the flag. -/
+def dfrIdealE (lang : Lang) (anon : Bool) (x : Nat) : Nat → NodeRef → NodeRef → NodeRef
+  | 0, _, last => last
+  | f + 1, node, last =>
+    match (rawChildren lang node).find? (fun rc => selE x rc.node) with
+    | none => last
+    | some rc => if x < rc.node.startByte then last else dfrIdealE lang anon x f rc.node (if rc.node.relevant lang anon then rc.node else last)
+
+mutual
+  /-- First VISIBLE node below `t` (children in order, hidden ones replaced by theirs) that the empty-range scan at `x`
+  does not pass over. -/
+  def firstSelE (lang : Lang) (x : Nat) : Tree → Length → Option NodeRef
+    | .mk d kids, start => firstSelEKids lang x d.productionId d.addr kids.length kids start 0 0
+  def firstSelEKids (lang : Lang) (x pid addr nk : Nat) : List Tree → Length → Nat → Nat → Option NodeRef
+    | [], _, _, _ => none
+    | c :: rest, pos, si, k =>
+      let cstart := if k > 0 then length_add pos c.data.padding else pos
+      let node : NodeRef := { t := c, alias := (if c.data.extra then 0 else lang.aliasAt pid si), id := slotId addr nk k, start := cstart }
+      match (if node.relevant lang true then (if selE x node then some node else none) else firstSelE lang x c cstart) with
+      | some r => some r
+      | none => firstSelEKids lang x pid addr nk rest (length_add cstart c.data.size) (if c.data.extra then si else si + 1) (k + 1)
+end
+
+mutual
+  /-- EXACT hypothesis of `descendant_for_empty_byte_range_spec` (decidable, evaluated on every empty-range question):
+  along the raw search path for the empty range at `x`,
+  (H2) a HIDDEN raw child the scan passes over contains no visible node it would not pass over — i.e. a hidden non-empty
+       child ending exactly at `x` has no visible zero-width descendant at `x` (the search on the ordered tree would take it);
+  (H4) a HIDDEN raw child the scan enters at or before `x` whose visible content offers nothing at `x` — a hidden zero-width
+       node without visible descendants, finding 6 — is followed, among the later siblings, by no visible node the search on
+       the ordered tree would enter (the first one it does not pass over starts after `x`);
+  and the same inside every child the search enters. -/
+  def emptyOK (lang : Lang) (x : Nat) : Tree → Length → Bool
+    | .mk d kids, start => emptyOKKids lang x d.productionId d.addr kids.length kids start 0 0
+  def emptyOKKids (lang : Lang) (x pid addr nk : Nat) : List Tree → Length → Nat → Nat → Bool
+    | [], _, _, _ => true
+    | c :: rest, pos, si, k =>
+      let cstart := if k > 0 then length_add pos c.data.padding else pos
+      let node : NodeRef := { t := c, alias := (if c.data.extra then 0 else lang.aliasAt pid si), id := slotId addr nk k, start := cstart }
+      let pos' := length_add cstart c.data.size
+      let si' := if c.data.extra then si else si + 1
+      if selE x node then
+        if x < node.startByte then true
+        else if node.relevant lang true then emptyOK lang x c cstart
+        else emptyOK lang x c cstart &&
+          ((firstSelE lang x c cstart).isSome ||
+            (match firstSelEKids lang x pid addr nk rest pos' si' (k + 1) with
+             | none => true
+             | some r => decide (x < r.startByte)))
+      else
+        (node.relevant lang true || (firstSelE lang x c cstart).isNone) && emptyOKKids lang x pid addr nk rest pos' si' (k + 1)
+end
+
 end TsVerif.C06
